@@ -85,27 +85,28 @@ theorem M_transfer (p t : List Nat) (c j : Nat) (hc : M p t c) (hj : j < c) :
     exact h3.trans hc.2
 
 /-- the fall-back loop ends in the largest state that can be extended by `b` (or in 0) -/
-theorem fallback_spec (p pf t : List Nat) (b n : Nat) (hpf : PfOK p pf n) :
+theorem fallback_spec (p pf t : List Nat) (b n : Nat) (hpf : PfOK p pf n) (hnl : n ≤ pf.length) :
     ∀ (fuel c : Nat), c ≤ fuel → M p t c → c < p.length → c ≤ n →
       (∀ k, M p t k → c < k → k < p.length → p.getD k 0 ≠ b) →
       M p t (fallback p pf b fuel c) ∧ fallback p pf b fuel c ≤ c ∧
       (fallback p pf b fuel c = 0 ∨ p.getD (fallback p pf b fuel c) 0 = b) ∧
-      (∀ k, M p t k → k < p.length → p.getD k 0 = b → k ≤ fallback p pf b fuel c) := by
+      (∀ k, M p t k → k < p.length → p.getD k 0 = b → k ≤ fallback p pf b fuel c) ∧
+      fallbackOK p pf b fuel c = true := by
   intro fuel
   induction fuel with
   | zero =>
     intro c hcf hM hcl hcn hinv
     have : c = 0 := by omega
     subst this
-    show M p t 0 ∧ 0 ≤ 0 ∧ (0 = 0 ∨ p.getD 0 0 = b) ∧ (∀ k, M p t k → k < p.length → p.getD k 0 = b → k ≤ 0)
-    refine ⟨hM, Nat.le_refl _, Or.inl rfl, ?_⟩
+    show M p t 0 ∧ 0 ≤ 0 ∧ (0 = 0 ∨ p.getD 0 0 = b) ∧ (∀ k, M p t k → k < p.length → p.getD k 0 = b → k ≤ 0) ∧ true = true
+    refine ⟨hM, Nat.le_refl _, Or.inl rfl, ?_, rfl⟩
     intro k hk hkl hkb
     cases Nat.eq_zero_or_pos k with
     | inl h => omega
     | inr h => exact absurd hkb (hinv k hk h hkl)
   | succ fuel ih =>
     intro c hcf hM hcl hcn hinv
-    simp only [fallback]
+    simp only [fallback, fallbackOK]
     split
     · rename_i hcond
       obtain ⟨hc0, hne⟩ := hcond
@@ -124,10 +125,14 @@ theorem fallback_spec (p pf t : List Nat) (b n : Nat) (hpf : PfOK p pf n) :
           · have hkc : k < c := by omega
             have := hmax.2 k ((M_transfer p t c k hM hkc).mp hk)
             omega)
-      obtain ⟨r1, r2, r3, r4⟩ := this
-      exact ⟨r1, by omega, r3, r4⟩
+      obtain ⟨r1, r2, r3, r4, r5⟩ := this
+      refine ⟨r1, by omega, r3, r4, ?_⟩
+      have h1 : c - 1 < pf.length := by omega
+      rw [if_pos hc0, if_pos hne]
+      simp only [Bool.and_eq_true, decide_eq_true_eq]
+      exact ⟨hcl, h1, r5⟩
     · rename_i hcond
-      refine ⟨hM, Nat.le_refl _, ?_, ?_⟩
+      refine ⟨hM, Nat.le_refl _, ?_, ?_, ?_⟩
       · by_cases h0 : c = 0
         · exact Or.inl h0
         · right
@@ -138,13 +143,24 @@ theorem fallback_spec (p pf t : List Nat) (b n : Nat) (hpf : PfOK p pf n) :
         by_cases h1 : c < k
         · exact absurd hkb (hinv k hk h1 hkl)
         · omega
+      · by_cases h0 : 0 < c
+        · have hb : b = p.getD c 0 := by
+            by_cases hb : b = p.getD c 0
+            · exact hb
+            · exact absurd ⟨h0, hb⟩ hcond
+          rw [if_pos h0, if_neg (fun h => h hb)]
+          simp only [Bool.and_true, decide_eq_true_eq]
+          exact hcl
+        · rw [if_neg h0]
 
 /-- one loop body keeps "state = longest matched prefix" -/
-theorem kmpStep_spec (p pf t : List Nat) (b n c : Nat) (hpf : PfOK p pf n)
+theorem kmpStep_spec (p pf t : List Nat) (b n c : Nat) (hpf : PfOK p pf n) (hnl : n ≤ pf.length)
     (hmax : IsMax p t c) (hcl : c < p.length) (hcn : c ≤ n) :
-    IsMax p (t ++ [b]) (kmpStep p pf b c) ∧ kmpStep p pf b c ≤ c + 1 := by
-  obtain ⟨r1, r2, r3, r4⟩ := fallback_spec p pf t b n hpf c c (Nat.le_refl _) hmax.1 hcl hcn
+    (IsMax p (t ++ [b]) (kmpStep p pf b c) ∧ kmpStep p pf b c ≤ c + 1) ∧ kmpStepOK p pf b c = true := by
+  obtain ⟨r1, r2, r3, r4, r5⟩ := fallback_spec p pf t b n hpf hnl c c (Nat.le_refl _) hmax.1 hcl hcn
     (fun k hk hck _ => by have := hmax.2 k hk; omega)
+  refine ⟨?_, by simp only [kmpStepOK, r5, Bool.true_and, decide_eq_true_eq]; omega⟩
+  clear r5
   simp only [kmpStep]
   generalize fallback p pf b c c = r at *
   have hrl : r < p.length := by omega
@@ -187,25 +203,30 @@ theorem getD_set (pf : List Nat) (i c j : Nat) (hi : i < pf.length) :
 theorem calcLoop_spec (p : List Nat) :
     ∀ (rest done : List Nat) (i cur : Nat) (pf : List Nat),
       p.tail = done ++ rest → done.length = i → IsMax p done cur → pf.length = p.length →
-      PfOK p pf (i + 1) → PfOK p (calcLoop p rest i cur pf) p.length := by
+      PfOK p pf (i + 1) →
+      PfOK p (calcLoop p rest i cur pf) p.length ∧ (calcLoop p rest i cur pf).length = p.length ∧
+        calcLoopOK p rest i cur pf = true := by
   intro rest
   induction rest with
   | nil =>
-    intro done i cur pf hsplit hlen _ _ hpf
-    simp only [calcLoop]
+    intro done i cur pf hsplit hlen _ hpflen hpf
+    simp only [calcLoop, calcLoopOK]
     have : p.length ≤ i + 1 := by
       have := congrArg List.length hsplit
       simp at this; omega
+    refine ⟨?_, hpflen, trivial⟩
     intro j hj
     exact hpf j (by omega)
   | cons b rest ih =>
     intro done i cur pf hsplit hlen hmax hpflen hpf
-    simp only [calcLoop]
+    simp only [calcLoop, calcLoopOK]
     have hpl : i + 1 < p.length := by
       have := congrArg List.length hsplit
       simp at this; omega
     have hcur : cur ≤ i := by have := M_le_length hmax.1; omega
-    obtain ⟨hs1, _⟩ := kmpStep_spec p pf done b (i + 1) cur hpf hmax (by omega) (by omega)
+    obtain ⟨⟨hs1, _⟩, hok⟩ := kmpStep_spec p pf done b (i + 1) cur hpf (by omega) hmax (by omega) (by omega)
+    have hw : (decide (i + 1 < pf.length)) = true := by simp; omega
+    rw [hok, hw, Bool.true_and, Bool.true_and]
     apply ih (done ++ [b]) (i + 1) (kmpStep p pf b cur)
     · rw [hsplit]; simp
     · simp [hlen]
@@ -224,7 +245,9 @@ theorem calcLoop_spec (p : List Nat) :
       · exact hpf j (by omega)
 
 /-- `calcPrefFunc` computes the prefix function: entry `j` is the longest proper border of `p[0..j]` -/
-theorem calcPrefFunc_ok (p : List Nat) (hp : p ≠ []) : PfOK p (calcPrefFunc p) p.length := by
+theorem calcPrefFunc_all (p : List Nat) (hp : p ≠ []) :
+    PfOK p (calcPrefFunc p) p.length ∧ (calcPrefFunc p).length = p.length ∧
+      calcLoopOK p p.tail 0 0 (List.replicate p.length 0) = true := by
   unfold calcPrefFunc
   apply calcLoop_spec p p.tail [] 0 0 _ (by simp) rfl (IsMax_nil p) (by simp)
   intro j hj
@@ -234,40 +257,45 @@ theorem calcPrefFunc_ok (p : List Nat) (hp : p ≠ []) : PfOK p (calcPrefFunc p)
   simp only [List.take_zero, List.getD_eq_getElem?_getD, List.getElem?_replicate, hpos, if_true, Option.getD_some]
   exact IsMax_nil p
 
+theorem calcPrefFunc_ok (p : List Nat) (hp : p ≠ []) : PfOK p (calcPrefFunc p) p.length :=
+  (calcPrefFunc_all p hp).1
+
 /-- an occurrence of `p` in `s` ending at `e` -/
 def Occ (p s : List Nat) (e : Nat) : Prop := e ≤ s.length ∧ p <:+ s.take e
 
-theorem findLoop_spec (p pf : List Nat) (hpf : PfOK p pf p.length) (s : List Nat) :
+theorem findLoop_spec (p pf : List Nat) (hpf : PfOK p pf p.length) (hpl : p.length ≤ pf.length) (s : List Nat) :
     ∀ (rest done : List Nat) (i cur : Nat),
       s = done ++ rest → done.length = i → IsMax p done cur → cur < p.length →
       (∀ e, e ≤ i → ¬ Occ p s e) →
-      match findLoop p pf rest i cur with
+      (match findLoop p pf rest i cur with
       | some e => Occ p s e ∧ ∀ e', e' < e → ¬ Occ p s e'
-      | none => ∀ e', ¬ Occ p s e' := by
+      | none => ∀ e', ¬ Occ p s e') ∧ findLoopOK p pf rest cur = true := by
   intro rest
   induction rest with
   | nil =>
     intro done i cur hs hlen _ _ hno
-    simp only [findLoop]
+    simp only [findLoop, findLoopOK]
+    refine ⟨?_, trivial⟩
     intro e' hocc
     have : e' ≤ i := by have := hocc.1; rw [hs] at this; simp at this; omega
     exact hno e' this hocc
   | cons b rest ih =>
     intro done i cur hs hlen hmax hcl hno
-    simp only [findLoop]
-    obtain ⟨hs1, hs2⟩ := kmpStep_spec p pf done b p.length cur hpf hmax hcl (by omega)
+    simp only [findLoop, findLoopOK]
+    obtain ⟨⟨hs1, hs2⟩, hok⟩ := kmpStep_spec p pf done b p.length cur hpf hpl hmax hcl (by omega)
+    rw [hok, Bool.true_and]
     have htake : s.take (i + 1) = done ++ [b] := by
       rw [hs, ← hlen, show done ++ b :: rest = (done ++ [b]) ++ rest by simp]
       exact List.take_left' (by simp)
     have hil : i + 1 ≤ s.length := by rw [hs]; simp; omega
     by_cases hfull : kmpStep p pf b cur = p.length
-    · rw [if_pos hfull]
-      refine ⟨⟨hil, ?_⟩, fun e' he' => hno e' (by omega)⟩
+    · rw [if_pos hfull, if_pos hfull]
+      refine ⟨⟨⟨hil, ?_⟩, fun e' he' => hno e' (by omega)⟩, rfl⟩
       rw [htake]
       have := hs1.1.2
       rw [hfull, List.take_length] at this
       exact this
-    · rw [if_neg hfull]
+    · rw [if_neg hfull, if_neg hfull]
       have hlt : kmpStep p pf b cur < p.length := by
         have := hs1.1.1; omega
       apply ih (done ++ [b]) (i + 1) (kmpStep p pf b cur) (by rw [hs]; simp) (by simp [hlen]) hs1 hlt
@@ -297,14 +325,15 @@ theorem occ_iff (p s : List Nat) (e : Nat) : Occ p s e ↔ ∃ y r, s = y ++ p +
 theorem kmp_first_occurrence (p s : List Nat) (hp : p ≠ []) :
     findSubstring s ⟨p, calcPrefFunc p⟩ = findEnd p s := by
   have hpos : 0 < p.length := List.length_pos_iff.mpr hp
-  have h := findLoop_spec p (calcPrefFunc p) (calcPrefFunc_ok p hp) s s [] 0 0 (by simp) rfl (IsMax_nil p) hpos
+  have h := (findLoop_spec p (calcPrefFunc p) (calcPrefFunc_ok p hp) (by rw [(calcPrefFunc_all p hp).2.1]; exact Nat.le_refl _)
+      s s [] 0 0 (by simp) rfl (IsMax_nil p) hpos
     (by
       intro e he hocc
       have he0 : e = 0 := by omega
       subst he0
       have := hocc.2.length_le
       rw [List.take_zero, List.length_nil] at this
-      omega)
+      omega)).1
   simp only [findSubstring]
   cases hk : findLoop p (calcPrefFunc p) s 0 0 with
   | none =>
@@ -327,5 +356,22 @@ theorem kmp_first_occurrence (p s : List Nat) (hp : p ≠ []) :
       have h2 : ¬ e2 < e1 := fun hlt => hleft e2 hlt ((occ_iff p s e2).mpr ⟨x, _, hx, he⟩)
       have : e1 = e2 := by omega
       rw [this]
+
+/-- **No out-of-range access in the KMP loops**, for every non-empty fragment and every text: all reads of
+`val[..]` / `prefFunc[..]` and the write `prefFunc[i+1]` in `calcPrefFunc` and `findSubstring` are in range. -/
+theorem kmp_in_range (p : List Nat) (hp : p ≠ []) :
+    calcLoopOK p p.tail 0 0 (List.replicate p.length 0) = true ∧
+    ∀ s, findLoopOK p (calcPrefFunc p) s 0 = true := by
+  have hall := calcPrefFunc_all p hp
+  refine ⟨hall.2.2, fun s => ?_⟩
+  have hpos : 0 < p.length := List.length_pos_iff.mpr hp
+  exact (findLoop_spec p (calcPrefFunc p) hall.1 (by rw [hall.2.1]; exact Nat.le_refl _) s s [] 0 0 (by simp) rfl
+    (IsMax_nil p) hpos (by
+      intro e he hocc
+      have he0 : e = 0 := by omega
+      subst he0
+      have := hocc.2.length_le
+      rw [List.take_zero, List.length_nil] at this
+      omega)).2
 
 end SV.Kmp
